@@ -310,6 +310,18 @@ def join(a: Val, b: Val) -> Val:
     tags = {}
     for k, v in a.tags.items():
         if k in b.tags:
+            if k == "kw" and isinstance(v, dict) and isinstance(b.tags[k], dict):
+                o = b.tags[k]
+                merged = {}
+                for kk in set(v) | set(o):
+                    if kk in v and kk in o:
+                        merged[kk] = join(v[kk], o[kk])
+                    else:
+                        one = (v.get(kk) or o.get(kk)).copy()
+                        one.tags["maybe_absent"] = True
+                        merged[kk] = one
+                tags[k] = merged
+                continue
             if k == "elem":
                 o = b.tags[k]
                 tags[k] = join(v, o) if (v is not None and o is not None) else (v if o is None else o)
